@@ -38,6 +38,7 @@ fn clients() -> Vec<Client> {
                     sup_map,
                     redirects: vec![REGISTERED, REGISTERED_Q, APP_URI],
                     consent_prompt: true,
+                    legacy_crypto: false,
                 });
             }
         }
